@@ -67,6 +67,7 @@ def signature(scn, variant, kind):
 def _write_file(fn, name, arr_abs, codec):
     a = N.gamma(arr_abs, codec)
     ds = A.Dataset()
+    ds["aa_first"] = A.DimArray([1., 2.], axes=[("q", [1, 2])])        # written first: the file's leading dimension is not the variable's
     ds[name] = a
     if a.ndim:
         ds["companion"] = a.take({a.dims[0]: a.axes[0].values[0]}) if a.ndim > 1 else a * 1
@@ -335,6 +336,10 @@ def _replay_append(scn, fn, codec, profile):
         first = pos == 0
         for k in i["steps"]:
             piece = slab(pos, pos + k)
+            if not first and pos:
+                # a label look-up through the handle before the append (whatever it remembers must not outlive the append)
+                lab0 = codec.enc(tl[0], kind_t)
+                ds["u"].read(indices={"t": lab0})
             if first:
                 ds["u"] = piece
                 first = False
@@ -344,6 +349,12 @@ def _replay_append(scn, fn, codec, profile):
                 ds["u"].ix[pos:pos + k] = piece
             pos += k
             calls += 1
+            # ... and the labels just appended are found through the same handle
+            lab_new = codec.enc(tl[pos - 1], kind_t)
+            got = ds["u"].read(indices={"t": lab_new})
+            want = cells[pos - 1]
+            if not np.allclose(np.asarray(got.values if hasattr(got, "values") else got, dtype=float), np.asarray(want, dtype=float), equal_nan=True):
+                raise AssertionError("label %r appended through the open handle reads %r, expected %r" % (lab_new, got, want))
         live = N.project(ds["u"].read(), codec)
         ds.close()
         act = N.project(A.da.read_nc(fn, "u"), codec)
